@@ -7,6 +7,8 @@ CONSTANTS
   Algo = "asis"
   SeedCopyreg = "live"
   InitGuard = FALSE
+  SharedCtx = FALSE
+  CtxCopy = TRUE
   Scns = {}
 INVARIANT TypeOK
 INVARIANT Inv_FreshStart
@@ -22,5 +24,6 @@ INVARIANT AsIs_C14_LoadsSucceeds
 INVARIANT AsIs_C15_Delivery
 INVARIANT AsIs_C15_OnlyAddressed
 INVARIANT Inv_C15_Independent
+INVARIANT AsIs_C15_NoResidue
 INVARIANT CaseDump
 CHECK_DEADLOCK FALSE
